@@ -109,9 +109,11 @@ mpeg2ts_reader::packet_filter_switch! {
     }
 }
 
-pub struct Ctx { changeset: FilterChangeset<Sw>, serial: u64, deep: bool, scripts: Scripts }
+pub struct Ctx { changeset: FilterChangeset<Sw>, serial: u64, deep: bool, scripts: Scripts,
+                 /// an application whose construct() itself queues changes (outside the model; C07's chunking comparison only)
+                 pub ctor_queues: bool }
 impl Ctx {
-    pub fn new(deep: bool, scripts: Scripts) -> Ctx { Ctx { changeset: FilterChangeset::default(), serial: 0, deep, scripts } }
+    pub fn new(deep: bool, scripts: Scripts) -> Ctx { Ctx { changeset: FilterChangeset::default(), serial: 0, deep, scripts, ctor_queues: false } }
     fn mk(&self, k: &Kind, s: u64) -> Sw {
         match k {
             Kind::Rec => Sw::Rec(Rec { serial: s, deep: self.deep }),
@@ -132,6 +134,13 @@ impl DemuxContext for Ctx {
             FilterRequest::ByPid(p) => {
                 let p = u16::from(p);
                 log(&[1, s, 0, p as u64]);
+                if self.ctor_queues && p != 0 {
+                    // while answering the request for P, also ask for a recording handler on P^1 and for the removal of P^2
+                    let s2 = self.serial; self.serial += 1;
+                    let extra = self.mk(&Kind::Rec, s2);
+                    self.changeset.insert(Pid::new(p ^ 1), extra);
+                    self.changeset.remove(Pid::new(p ^ 2));
+                }
                 if p == 0 { Sw::Pat(PatWrap { serial: s, inner: demultiplex::PatPacketFilter::default() }) }
                 else if self.scripts.contains_key(&p) { self.mk(&Kind::Script(p), s) }
                 else { self.mk(&Kind::Rec, s) }
@@ -179,6 +188,7 @@ pub fn run_dmx(flags: u64, scripts: Scripts, chunks: &[Vec<u8>]) -> Vec<u64> {
     set_base(&all);
     take_log();
     let mut ctx = Ctx::new(flags & 1 != 0, scripts);
+    ctx.ctor_queues = flags & 4 != 0;
     let mut d = demultiplex::Demultiplex::new(&mut ctx);
     let mut pos = 0usize;
     for c in chunks { d.push(&mut ctx, &all[pos..pos + c.len()]); pos += c.len(); }
